@@ -392,6 +392,46 @@ Lemma mul_wraps_ref : forall ap a b s,
   in_i64 (wrap64 (a * b)) = true /\ (wrap64 (a * b) - (a * b)) mod two64 = 0.
 Proof. intros. split; [reflexivity|]. split; [apply wrap64_range|apply wrap64_congr]. Qed.
 
+(* ================================================================= 4b. floats, list concatenation, apply *)
+
+(* every float is true, 0.0 included (expressions.go:IsTruthy has no float case) *)
+Lemma float_is_true_ref : forall h, truthy (VFlt h) = true.
+Proof. reflexivity. Qed.
+
+Lemma val_list_list_val : forall l, val_list (list_val l) = Some l.
+Proof. induction l as [|v l IH]; simpl; [reflexivity|rewrite IH; reflexivity]. Qed.
+
+Lemma cat_lists_app : forall ls acc, cat_lists acc (map list_val ls) = Some (acc ++ concat ls).
+Proof.
+  induction ls as [|l ls IH]; simpl; intros acc; [rewrite app_nil_r; reflexivity|].
+  rewrite val_list_list_val, IH, app_assoc. reflexivity.
+Qed.
+
+Lemma no_sym_lists : forall ls,
+  existsb (fun v => match v with VSym _ => true | _ => false end) (map list_val ls) = false.
+Proof. induction ls as [|l ls IH]; simpl; [reflexivity|]. rewrite IH. destruct l; reflexivity. Qed.
+
+(* concat of two or more lists: the elements of all of them in order, and nothing else happens (lists
+   are values: no argument can change, the store is the one before) *)
+Lemma concat_lists_ref : forall ap v l l2 ls s,
+  prim_apply ap PConcat (list_val (v :: l) :: list_val l2 :: map list_val ls) s
+  = (Done (list_val ((v :: l) ++ l2 ++ concat ls)), s).
+Proof.
+  intros. pose proof (no_sym_lists ((v :: l) :: l2 :: ls)) as Hn.
+  simpl in Hn |- *. rewrite Hn. rewrite !val_list_list_val. rewrite cat_lists_app.
+  rewrite <- app_assoc. reflexivity.
+Qed.
+
+(* apply hands the ELEMENTS of its second argument to the function as they are: they are not evaluated
+   again (a symbol stays a symbol, a list a list) and an array among them is the same array *)
+Lemma apply_passes_values_ref : forall ap f a o s, is_fn f = true -> nth_error (arrays s) a = Some o ->
+  prim_apply ap PApply [f; VArr a] s = ap f (a_elems o) s.
+Proof. intros ap f a o s Hf Ha. simpl. rewrite Hf. unfold bindM, get_arr. rewrite Ha. reflexivity. Qed.
+
+Lemma apply_passes_list_ref : forall ap f v l s, is_fn f = true ->
+  prim_apply ap PApply [f; list_val (v :: l)] s = ap f (v :: l) s.
+Proof. intros ap f v l s Hf. simpl. rewrite Hf. rewrite val_list_list_val. reflexivity. Qed.
+
 (* ================================================================= 5. fuel monotonicity *)
 
 (* m' does whatever m does whenever m finishes (value or signal) *)
@@ -836,8 +876,8 @@ Section PresOpen.
 
   Lemma pres_arith : forall op r acc, pres (arith op acc r).
   Proof.
-    induction r as [|b r IH]; simpl; intros acc; [apply pres_ret|].
-    destruct acc; try apply pres_raise. destruct b; try apply pres_raise. apply IH.
+    induction r as [|b r IH]; simpl; intros acc; [destruct acc; first [apply pres_ret|apply pres_raise]|].
+    destruct acc; try apply pres_raise; destruct b; try apply pres_raise. apply IH.
   Qed.
 
   Lemma pres_compare_prim : forall test args, pres (compare_prim test args).
@@ -1304,8 +1344,8 @@ Section NonInterference.
 
     Lemma ni_arith : forall op r acc, val_ok acc -> ni val_ok (arith op acc r).
     Proof.
-      induction r as [|b r IH]; simpl; intros acc Ha; [apply ni_ret; assumption|].
-      destruct acc; try apply ni_raise. destruct b; try apply ni_raise. apply IH. exact I.
+      induction r as [|b r IH]; simpl; intros acc Ha; [destruct acc; first [apply ni_raise|apply ni_ret; assumption]|].
+      destruct acc; try apply ni_raise; destruct b; try apply ni_raise. apply IH. exact I.
     Qed.
 
     Lemma ni_compare_prim : forall test args, ni val_ok (compare_prim test args).
@@ -1373,6 +1413,19 @@ Section NonInterference.
         + assert (nth_error (set_nth a (mkArr (set_nth (Z.to_nat i) v (a_elems o)) (a_ty o)) (arrays s1)) a = None)
             by (apply nth_error_None; rewrite length_set_nth; assumption). congruence.
       - rewrite nth_error_set_nth_other in Hb by assumption. eapply (r_arr_ok _ _ R); eauto.
+    Qed.
+
+    Lemma val_ok_list_val : forall l, Forall val_ok l -> val_ok (list_val l).
+    Proof. induction 1; simpl; [exact I|split; assumption]. Qed.
+
+    Lemma cat_lists_ok : forall rest acc l, Forall val_ok acc -> Forall val_ok rest ->
+      cat_lists acc rest = Some l -> Forall val_ok l.
+    Proof.
+      induction rest as [|b r IH]; simpl; intros acc l Ha Hr E.
+      - inversion E; subst. assumption.
+      - inversion Hr as [|? ? Hb Hr']; subst. destruct (val_list b) as [lb|] eqn:Eb; [|discriminate].
+        apply (IH (acc ++ lb)); [|assumption|assumption].
+        apply Forall_app. split; [assumption|eapply val_list_ok; eauto].
     Qed.
 
     Lemma ni_cat_arrs : forall rest acc, Forall val_ok acc -> ni (Forall val_ok) (cat_arrs acc rest).
@@ -1443,11 +1496,18 @@ Section NonInterference.
         + eapply ni_bind; [apply ni_get_arr|]. intros o Ho; cbv beta in Ho. apply ni_ret. exact I.
       - (* PConcat *)
         destruct (existsb _ args); [apply ni_raise|].
-        destruct args as [|a rest]; [apply ni_raise|]. inversion Hargs; subst.
+        destruct args as [|a rest]; [apply ni_raise|]. inversion Hargs as [|? ? Ha Hrest]; subst.
         destruct a; try apply ni_raise.
-        eapply ni_bind; [apply ni_get_arr|]. intros o Ho; cbv beta in Ho.
-        eapply ni_bind; [apply ni_cat_arrs; assumption|]. intros els Hels.
-        apply ni_alloc_arr; assumption.
+        + destruct rest as [|b rest']; [apply ni_ret; assumption|].
+          destruct Ha as [Ha1 Ha2].
+          destruct (val_list a2) as [l2|] eqn:E2; [|apply ni_raise].
+          destruct (cat_lists (a1 :: l2) (b :: rest')) as [l|] eqn:Ec; [|apply ni_raise].
+          apply ni_ret. apply val_ok_list_val.
+          eapply cat_lists_ok; [| |exact Ec]; [|assumption].
+          constructor; [assumption|eapply val_list_ok; eauto].
+        + eapply ni_bind; [apply ni_get_arr|]. intros o Ho; cbv beta in Ho.
+          eapply ni_bind; [apply ni_cat_arrs; assumption|]. intros els Hels.
+          apply ni_alloc_arr; assumption.
       - (* PMap *)
         destruct args as [|f [|c [|? ?]]]; try apply ni_raise.
         inversion Hargs as [|? ? Hf Hr]; subst. inversion Hr; subst.
@@ -1495,6 +1555,7 @@ Section NonInterference.
     match d with
     | DInt _ => I
     | DSym _ => I
+    | DFlt _ => I
     | DList ds =>
       (fix go (l : list datum) : val_ok (fold_right (fun x acc => VPair (datum_val x) acc) VNil l) :=
          match l with
@@ -1847,8 +1908,8 @@ Lemma quiet_prim_apply : forall ap p args, (forall f a, quiet (ap f a)) -> quiet
 Proof.
   intros ap p args Hap.
   assert (Harith : forall op r acc, quiet (arith op acc r)).
-  { induction r as [|b r IH]; simpl; intros acc; [apply quiet_ret|].
-    destruct acc; try apply quiet_raise. destruct b; try apply quiet_raise. apply IH. }
+  { induction r as [|b r IH]; simpl; intros acc; [destruct acc; first [apply quiet_ret|apply quiet_raise]|].
+    destruct acc; try apply quiet_raise; destruct b; try apply quiet_raise. apply IH. }
   assert (Hcmp : forall test a, quiet (compare_prim test a)).
   { intros test a. unfold compare_prim. destruct a as [|x [|y [|? ?]]]; try apply quiet_raise.
     apply quiet_state. intros s. destruct (cmp_val _ _ _ _); split; intros; discriminate. }
